@@ -196,7 +196,7 @@ pub fn c11(o: &Opts) -> Outcome {
     {
         let recs: Vec<Vec<u8>> = vec![b"ACGTTGCA".to_vec(), b"GGATC".to_vec(), b"ACGTu".to_vec(), b"TTGACC".to_vec(), b"A".to_vec()];
         cases += recs.len() as u64;
-        if let Some(w) = with_gzm(|| c11_batch(&recs, 8, 2)) { return Outcome { cases, witness: Some(w) }; }
+        for kind in KINDS { if let Some(w) = with_kind(kind, &recs, || c11_batch(&recs, 8, 2)) { return Outcome { cases, witness: Some(w) }; } }
     }
     // rejection among ordinary records, for several worker counts
     for threads in [1usize, 2, 4] {
@@ -286,7 +286,7 @@ pub fn c12(o: &Opts) -> Outcome {
     {
         let recs: Vec<Vec<u8>> = vec![b"ACGTTGCA".to_vec(), b"GGATC".to_vec(), b"ACGTNACGT".to_vec(), b"TTGACC".to_vec(), b"A".to_vec()];
         cases += recs.len() as u64;
-        if let Some(w) = with_gzm(|| c12_batch(&recs, 2, 8, true, 2)) { return Outcome { cases, witness: Some(w) }; }
+        for kind in KINDS { if let Some(w) = with_kind(kind, &recs, || c12_batch(&recs, 2, 8, true, 2)) { return Outcome { cases, witness: Some(w) }; } }
     }
     // two computers with the same k and different square sizes in one process (nothing may be shared between them)
     for size in [16usize, 32, 4] {
